@@ -9,17 +9,19 @@ from .lib.mir import AnchorLost
 CONFIGS_QUICK = ["A", "R"]
 CONFIGS_THOROUGH = ["A", "R"]
 TECHNIQUE = "intra-procedural taint (provenance of every value pushed to the output) over all serializer methods; separator literal tables of writer vs reader; support matrix of serialize_*/deserialize_*"
-LEVEL_TEXT = ('Decides clauses C09-a..f: in every method of the URL-encoded Serializer and of its compound serializers, whatever is appended to the output is a '
-              'separator literal (& = ,), the literals true/false, the to_string of a numeric primitive, or the result of percent_encode -- a &str or char parameter '
-              'never reaches the output raw; the separators the writer emits are exactly the bytes the reader dispatches on; None/unit are written as the empty '
-              'section and read back by testing for it; for every serde data-model kind the serializer supports, the matching deserialize_* is not an unconditional '
-              'error; deserialize_char accepts exactly the decoded texts of one Unicode scalar value (decided by the char iterator, not by a byte length); the '
-              'sequence reader steps over the `,` the writer puts between elements, raises no `separator missing` error on the path that found the separator, steps '
-              "over a `,` only as the lead-in of the element that follows it (before that element's extent is computed, so a trailing empty element is not lost), and"
-              ' decodes each element with the decoder of scalar values; from deserialize_ignored_any no decoding or validating function is reachable (the value of an'
-              ' unknown key is skipped raw, so it cannot influence the outcome); the `,` between sequence elements is decided by position, not by a test of the text '
-              'written so far. The query iterator searches for `=` / `&` in the raw pair and decodes the pieces afterwards (no separator search in percent-decoded '
-              'text). Decides these clauses, not round-trip equality for all values (e.g. the comma-separated sequence reader).')
+LEVEL_TEXT = ('Decides clauses C09-a..f: in every method of the URL-encoded Serializer and of its compound serializers, whatever is appended to the output is a separ'
+              'ator literal (& = ,), the literals true/false, the to_string of a numeric primitive, or the result of percent_encode -- a &str or char parameter never'
+              ' reaches the output raw; the separators the writer emits are exactly the bytes the reader dispatches on; None/unit are written as the empty section an'
+              'd read back by testing for it; for every serde data-model kind the serializer supports, the matching deserialize_* is not an unconditional error; dese'
+              'rialize_char accepts exactly the decoded texts of one Unicode scalar value (decided by the char iterator, not by a byte length); the sequence reader s'
+              'teps over the `,` the writer puts between elements, raises no `separator missing` error on the path that found the separator, steps over a `,` only as'
+              " the lead-in of the element that follows it (before that element's extent is computed, so a trailing empty element is not lost), and decodes each elem"
+              'ent with the decoder of scalar values; from deserialize_ignored_any no decoding or validating function is reachable (the value of an unknown key is sk'
+              'ipped raw, so it cannot influence the outcome); the `,` between sequence elements is decided by position, not by a test of the text written so far. Th'
+              'e query iterator searches for `=` / `&` in the raw pair and decodes the pieces afterwards (no separator search in percent-decoded text). C09-h: in the'
+              ' sequence reader the end-of-sequence answer is not reachable from the point where a separator was consumed (a trailing separator is an empty last elem'
+              "ent). C09-i: the query iterator's pair extent (C02-g) re-evaluated. Decides these clauses, not round-trip equality for all values (e.g. the comma-sepa"
+              'rated sequence reader).')
 
 SER = r"ohkami_lib::serde_urlencoded::ser::URLEncodedSerializer"
 NUMERIC = {"u8", "u16", "u32", "u64", "u128", "usize", "i8", "i16", "i32", "i64", "i128", "isize", "f32", "f64"}
@@ -38,6 +40,8 @@ def run(ck, progs):
         ck.guard("C09-e REACH unknown pairs", lambda: c09e(ck, prog))
         ck.guard("C09-f DECISION element separator", lambda: c09f(ck, prog))
         ck.guard("C09-g ORDER split before decoding", lambda: c09g(ck, prog))
+        ck.guard("C09-h ORDER separator then element", lambda: c09h(ck, prog))
+        ck.guard("C09-i PAIR query pair extent", lambda: c09i(ck, prog))
     ck.config = None
 
 
@@ -403,3 +407,46 @@ def c09g(ck, prog):
                   "" if ok else "the query iterator searches for `%s` in `%s`, i.e. in text that was already percent-decoded: an escaped separator inside a key or value (`a%%3Db=c`) is taken for the real one"
                   % ("/".join(sorted({p_ for p_ in pats if p_})), d[:80]), how="separator searched in the raw pair: %s" % d[:60])
     ck.floor(R, "separator searches in request::query", n, 2)
+
+
+def c09h(ck, prog):
+    """`["a", "b", ""]` is written `a,b,` and must read back with its empty last element: in the sequence reader, once the
+    separator that ended the previous element has been consumed, an element follows -- the end-of-sequence answer `Ok(None)`
+    is not reachable from the point where the separator was consumed (it is decided before, on the untouched rest)."""
+    R = "C09-h ORDER separator then element"
+    fs = [f for f in prog.fns.values() if f.name == "next_element_seed" and "CommaSeparated" in (f.self_ty or "")]
+    if len(fs) != 1:
+        raise AnchorLost("CommaSeparated::next_element_seed not found (%d)" % len(fs))
+    f = fs[0]
+    # the consumption: a store to self.section under the `Some((b',', rest))` match of split_first / strip_prefix
+    consumed = []
+    for bi in sorted(f.live_blocks()):
+        for st in f.blocks[bi]["st"]:
+            if st["k"] == "=" and st["p"][1] and st["p"][1][-1][0] == "f" and st["p"][1][-1][2] == "section" and not f.is_cleanup(bi):
+                facts = guards.facts_at(f, prog, bi)
+                if any((fa.kind == "int" and fa.values == {44}) or (fa.kind == "variant" and fa.allowed == {"Some"} and fa.steps and re.search(r"split_first|strip_prefix", guards.describe_origin(f, fa.steps))) for fa in facts):
+                    consumed.append(bi)
+    nones = [bb for bb, kind, payload in paths.ret_sites(f) if kind == "Ok" and decision.describe_deep(f, payload[2][0], 2).startswith("None")]
+    if not consumed or not nones:
+        raise AnchorLost("separator consumption (%d) or end-of-sequence answer (%d) not found in next_element_seed" % (len(consumed), len(nones)))
+    bad = [b for b in consumed if set(nones) & f.reachable_from(b)]
+    ok = not bad
+    ck.ob(R, "reader:no-end-after-a-separator", ok, f.loc(None), "" if ok else "the sequence reader can answer `end of sequence` after it has consumed a separator: a trailing `,` (the written form of an empty last element) is swallowed, `a,b,` reads back as [a, b] and `1,2,` is accepted for a list of numbers",
+          how="Ok(None) is not reachable from the consumption of `,`")
+
+
+def c09i(ck, prog):
+    """a value that contains `=` (base64 padding) survives the query iterator: the query pair's value runs to the end of the
+    pair (the C02-g clause re-evaluated: the same split reads what the urlencoded writer produced)."""
+    R = "C09-i PAIR query pair extent"
+    from . import C02
+    sub = type(ck)(ck.prop, ck.tier)
+    sub.config = ck.config
+    sub.guard("C02-g PAIR query value extent", lambda: C02.c02g(sub, prog))
+    n = 0
+    for o in sub.obs:
+        if o["key"].startswith("floor:"):
+            continue
+        n += 1
+        ck.ob(R, "C02-g:" + o["key"], o["ok"], o["where"], o["detail"], how=o["how"], nontrivial=o.get("nontrivial", True))
+    ck.floor(R, "query extent clauses", n, 1)
